@@ -381,6 +381,27 @@ func Sleep(site string, d time.Duration) {
 	s.resume(t)
 }
 
+// TimeNow is time.Now() in library code: not an operation (no step, no preemption point),
+// but a stall point - on real hardware time passes between any two statements.
+//
+//go:norace
+func TimeNow(site string) time.Time {
+	s := cur
+	if t := s.running; t != nil && t.lib && !s.aborted {
+		s.site(site).Hits++
+		s.maybeStall(t, "sim:stall-at-clock")
+	}
+
+	return time.Now()
+}
+
+// TimeSince is time.Since(x) in library code (see TimeNow).
+//
+//go:norace
+func TimeSince(site string, x time.Time) time.Duration {
+	return TimeNow(site).Sub(x)
+}
+
 // WaitGroupWait is wg.Wait().
 func WaitGroupWait(site string, wg *sync.WaitGroup) {
 	s, t := enter(site, opWait)
